@@ -18,6 +18,7 @@ type Feature struct {
 
 	muxOperations  sync.RWMutex
 	muxDescription sync.RWMutex
+	muxAddress     sync.RWMutex
 }
 
 var _ api.FeatureInterface = (*Feature)(nil)
@@ -33,7 +34,26 @@ func NewFeature(address *model.FeatureAddressType, ftype model.FeatureTypeType, 
 }
 
 func (r *Feature) Address() *model.FeatureAddressType {
+	r.muxAddress.RLock()
+	defer r.muxAddress.RUnlock()
+
 	return r.address
+}
+
+// complete the address of a feature that was created before the device address was known
+//
+// the address may already be in use elsewhere, so it is replaced and not modified in place
+func (r *Feature) completeDeviceAddress(device *model.AddressDeviceType) {
+	r.muxAddress.Lock()
+	defer r.muxAddress.Unlock()
+
+	if r.address == nil || r.address.Device != nil || device == nil {
+		return
+	}
+
+	address := *r.address
+	address.Device = device
+	r.address = &address
 }
 
 func (r *Feature) Type() model.FeatureTypeType {
